@@ -130,7 +130,7 @@ Can optionally include transitive dependents of changed targets to find all affe
 		}
 		selector := selection.New(nil, config.Global.Tags, config.Global.ExcludeTags, targetTypeFilter)
 
-		model.PrintSortedLabels(selector.FilterNodes(deduplicatedTargets))
+		model.PrintSortedLabels(selector.FilterNodes(graph, deduplicatedTargets))
 	},
 }
 
